@@ -1,6 +1,6 @@
 (* WireAll.v — the case runner for every kind of case the harness sends
    (one line in, one line out).  Extract.v extracts [run_case_all]. *)
-From Mpath.Model Require Import Base Dec Types GoVal Ast Lexer Parser Printer Funcs Eval Wire Analysis Blocked Reader Sys.
+From Mpath.Model Require Import Base Dec Types GoVal Ast Lexer Parser Printer Funcs Eval Wire Analysis Blocked Reader Sys Cue Validate WireVal.
 
 Definition comma : str := bs ",".
 Definition join_hex (l : list str) : str := concat_str comma (map show_hex l).
@@ -11,8 +11,8 @@ Definition run_analysis (q unis : str) : str :=
   match atom_hex q, sexp_of_str unis with
   | Some qs, Some u =>
     match parse_string (uni_of_sexp u) qs with
-    | Ok t => bs "ok rf=" ++ join_hex (root_fields t) ++ bs " ap="
-              ++ concat_str comma (map (fun p => concat_str (bs ".") (map show_hex p)) (addressed_paths t))
+    | Ok t => bs "ok rf=" ++ join_hex (Mpath.Model.Analysis.root_fields t) ++ bs " ap="
+              ++ concat_str comma (map (fun p => concat_str (bs ".") (map show_hex p)) (Mpath.Model.Analysis.addressed_paths t))
     | Declined w => bs "declined " ++ bs w
     | _ => bs "parse-err"
     end
@@ -93,6 +93,7 @@ Definition run_case_all (line : str) : str :=
       match fields with [c; fs; ds] => run_blocked c fs ds | _ => bad_case end
     else if atom_is kind "parse" then
       match fields with [q; unis] => run_parse q unis | _ => bad_case end
+    else if atom_is kind "validate" then run_validate fields
     else if atom_is kind "chunks" then
       match fields with [cs; unis] => run_chunks cs unis | _ => bad_case end
     else bad_case
